@@ -46,7 +46,7 @@ def BOUNDS(tier):
 def REQUIRED_COVER(tier):
     return {'v:null', 'v:int', 'v:cell', 'v:slice', 'v:builder', 'v:tuple', 'v:cont', 'int:tiny', 'int:big', 'tuple:len0', 'tuple:len1', 'tuple:len2', 'tuple:len3', 'tuple:nested',
             'slice:consumed', 'cont:std', 'cont:envelope', 'cont:quit', 'cont:quit_exc', 'cont:repeat', 'cont:until', 'cont:again', 'cont:while_cond', 'cont:while_body',
-            'cont:pushint', 'cdata:nargs0', 'cdata:cp0', 'cdata:stack', 'cdata:save', 'foreign:int257', 'foreign:slice-offsets', 'history:rearrival', 'history:alias'}
+            'cont:pushint', 'cdata:nargs0', 'cdata:cp0', 'cdata:stack', 'cdata:save', 'foreign:int257', 'foreign:slice-offsets', 'history:rearrival', 'history:alias', 'deep:stack', 'deep:tuple'}
 
 
 # ------------------------------------------------------------------------------------------ alphabet (JSON-able specs)
@@ -955,8 +955,49 @@ def selftest():
             assert got == (lv_spec(s),), (s, alt, got)
 
 
+def case_deep(rec, n, kind):
+    """stacks / tuples of many values, the library calls under the interpreter's DEFAULT recursion limit: a stack list is one cell deep per value
+    (valid up to 1022 values), a tuple holds up to 255 entries"""
+    from pytoniq_core.tlb.vm_stack import VmStack, VmTuple
+    from .common import user_recursion_limit
+    rec.case('deep')
+    args = {'n': n, 'kind': kind}
+    specs = [I((i * 7919) % 100003 - 50000) for i in range(n)]
+    if kind == 'tuple':
+        specs = [['tuple', specs], I(1)]
+    want = tuple(lv_spec(s) for s in specs)
+    vals = [to_lib(s) for s in specs]
+    rec.state(('deep', n, kind))
+    rec.nontriv(('deep', n, kind))
+    try:
+        rec.trans(3)
+        with user_recursion_limit():
+            c1 = VmStack.serialize(vals)
+            c2 = VmStack.serialize(vals)
+            back = VmStack.deserialize(c1.begin_parse())
+    except Exception as e:
+        rec.violation(f'deep:{kind}:raises', f'a {kind} of {n} small integers: {exc_name(e)}: {str(e)[:100]} (under the default recursion limit)', 'case_deep', args)
+        return
+    rec.trace()
+    got = tuple(lv_lib(v) for v in back)
+    ref = tuple(lv_ref(x, []) for x in ref_decode_stack(from_lib(c1)))
+    if c1.hash != c2.hash or got != want or ref != want or len(vals) != len(specs):
+        rec.violation(f'deep:{kind}:value', f'a {kind} of {n} small integers does not round-trip / decode per schema / serialise twice to the same cell', 'case_deep', args)
+        return
+    rec.covered(f'deep:{kind}')
+    rec.outcome('deep-ok')
+
+
+def shard_deep(rec):
+    for n in (254, 255, 256, 500, 989, 990, 991, 1000, 1021, 1022):
+        case_deep(rec, n, 'stack')
+    for n in (128, 254, 255):
+        case_deep(rec, n, 'tuple')
+    rec.sample({'stack_values': 1022, 'oracle': 'schema decode + library parse + second serialisation, default recursion limit'})
+
+
 def shards(tier, seed):
-    out = [{'fn': 'shard_stacks', 'args': {'depth': 0, 'part': 0, 'parts': 1}}, {'fn': 'shard_stacks', 'args': {'depth': 1, 'part': 0, 'parts': 1}}]
+    out = [{'fn': 'shard_deep', 'args': {}, 'prio': 2}, {'fn': 'shard_stacks', 'args': {'depth': 0, 'part': 0, 'parts': 1}}, {'fn': 'shard_stacks', 'args': {'depth': 1, 'part': 0, 'parts': 1}}]
     for p in range(16):
         out.append({'fn': 'shard_stacks', 'args': {'depth': 2, 'part': p, 'parts': 16}, 'prio': 2})
     for p in range(8):
